@@ -305,8 +305,8 @@ def generate(repo):
                 tier, p, t, unwind, name, body))
             n_h += 1
         # ---------------------------------------------- does not fit (fixed-size targets)
-        for t in ("slice", "sbm1", "chain", "limit"):
-            tier = "quick" if t in ("slice",) or (t == "sbm1" and idx % 2 == 0) or (t in ("chain", "limit") and idx % 5 == 0) else "thorough"
+        for t in ("slice", "uninit", "sbm1", "chain", "limit"):
+            tier = "quick" if t in ("slice",) or (t in ("sbm1", "uninit") and idx % 2 == 0) or (t in ("chain", "limit") and idx % 5 == 0) else "thorough"
             name = "c11_%s_%s_nofit" % (p, t)
             if fixed:
                 pre = "    const N: usize = %d;\n    const W: usize = %d;\n    %s\n    let need = W;\n    let cap0 = any_len(W - 1);" % (N, W, vdecl.split("\n")[0])
@@ -316,6 +316,10 @@ def generate(repo):
                 call = lambda w: "%s.%s(v, nb);" % (w, p)
             if t == "slice":
                 tgt = "    let mut mem = [G; N];\n    let lo = 1usize;\n    unsafe { observe_guards(mem.as_ptr(), N, 0, 0) };\n    let mut w: &mut [u8] = &mut mem[lo..lo + cap0];\n    end_reached!();\n    %s" % call("w")
+            elif t == "uninit":
+                tgt = ("    let mut mem = [G; N];\n    let lo = 1usize;\n    unsafe { observe_guards(mem.as_ptr(), N, 0, 0) };\n"
+                       "    let mu: &mut [MaybeUninit<u8>; N] = unsafe { &mut *(&mut mem as *mut [u8; N] as *mut [MaybeUninit<u8>; N]) };\n"
+                       "    let mut w: &mut [MaybeUninit<u8>] = &mut mu[lo..lo + cap0];\n    end_reached!();\n    %s" % call("w"))
             elif t == "chain":
                 tgt = ("    let mut mem = [G; N];\n    let lo = 1usize;\n    unsafe { observe_guards(mem.as_ptr(), N, 0, 0) };\n    let split = any_len(cap0);\n"
                        "    let (first, second) = mem[lo..lo + cap0].split_at_mut(split);\n    let mut w = first.chain_mut(second);\n    end_reached!();\n    %s" % call("w"))
